@@ -28,7 +28,7 @@ CFG = {
     "theorems": ["C05_accounting", "C05_change_balances", "C05_select_and_change", "C05_balance", "C05_failure_keeps_wf",
                  "C05_histories", "C05_history_change", "C05_order", "C05_judge_decides", "C05_recorded_oracle_ok",
                  "C05_mint_min_int_refuted", "C05_collateral_entry", "C05_collateral_is_c19", "C05_histories2",
-                 "C05_history2_balancing"],
+                 "C05_history2_balancing", "C05_change_loop_terminates", "C05_recorded_oracle_answers", "C05_change_goes_to_change_address"],
     "allowed_axioms": [],
     "compare": "exact",
     "nontrivial": _nontrivial,
